@@ -184,13 +184,19 @@ static void fixed_c01(Ctx &ctx)
   {
     // lengths around multiples of the production chunk (16 MiB), 1..3 chunks; a last byte 0x01..0x10
     // would be taken for padding if the real padding block were missing
-    for (int k : {1, 2, 3})
+    // k = 5: more chunks than the CLI's 4 workers, so a production-size buffer is refilled (80 MiB, also in the
+    // quick tier, CTR); k = 9 (thorough): every buffer refilled twice, file size beyond 2^27
+    for (int k : {1, 2, 3, 5, 9})
       for (int d : {-17, -16, -15, -1, 0, 1})
         for (int rep = 0; rep < 2; rep++)
         {
+          if (k == 5 && !(d == 1 || (d == 0 && ctx.thorough())))
+            continue;
+          if (k == 9 && !(d == 1 && rep == 0 && ctx.thorough()))
+            continue;
           // quick tier: four production-size cases (one chunk exactly, one byte less, a full padding
           // block, and 32 MiB + 1 which also crosses the production hash-buffer refill of 32 MiB)
-          if (!ctx.thorough() && !((k == 1 && d == 0 && rep == 1) || (k == 1 && d == -1 && rep == 0) || (k == 1 && d == -16 && rep == 0) || (k == 2 && d == 1 && rep == 1)))
+          if (!ctx.thorough() && !((k == 1 && d == 0 && rep == 1) || (k == 1 && d == -1 && rep == 0) || (k == 1 && d == -16 && rep == 0) || (k == 2 && d == 1 && rep == 1) || (k == 5 && d == 1 && rep == 0)))
             continue;
           if (!mine(ctx, i++))
             continue;
@@ -198,12 +204,12 @@ static void fixed_c01(Ctx &ctx)
           c.set("kind", "prod");
           c.seti("k", k);
           c.seti("d", d);
-          c.seti("cmode", (k + d + 20 + rep * 2) % 5);
+          c.seti("cmode", k >= 5 && d == 1 && rep == 0 ? 2 : (k + d + 20 + rep * 2) % 5);
           c.seti("hmode", (k + rep) % 3);
           c.seti("lastbyte", rep ? 0x04 : 0x10);
           eval_fixed(*p, ctx, c);
         }
-    ctx.stats.info["production_size_runs"] = "k*16MiB+d, k in 1..3, d in {-17,-16,-15,-1,0,1}, CLI binary with the guard off, reference decrypts the output";
+    ctx.stats.info["production_size_runs"] = "k*16MiB+d, k in 1..3 with d in {-17,-16,-15,-1,0,1}, k = 5 (a refilled buffer) and 9 with d in {0,1}, CLI binary with the guard off, reference decrypts the output";
     return;
   }
   for (int chunk : {16, 64})
